@@ -314,6 +314,12 @@ def cap_cases(tier):
     cases.append(declared([5 * 2 ** 30], "tag"))
     cases.append(declared([5 * 2 ** 30], "ref"))                        # for-each-ref size column > 32 bits
     cases.append(declared([2 ** 40, 2 ** 40 + 1, 7], "tree"))
+    # sums of blob sizes straddling 2^64 (the 64-bit totals must saturate, however the headers arrive)
+    cases.append(declared([2 ** 63, 2 ** 63], "tree"))
+    cases.append(declared([2 ** 64 - 1, 1], "tree"))
+    cases.append(declared([2 ** 63 + 5, 2 ** 63 - 6], "tree"))          # 2^64-1 exactly... minus 0: sum = 2^64 - 1
+    cases.append(declared([2 ** 63 + 5, 2 ** 63 - 5, 7, 9], "tag"))
+    cases.append(declared([2 ** 62] * 5, "ref"))
     return cases
 
 
@@ -394,6 +400,25 @@ def run_cap_case(arg):
             bad = {kk: [want_all[kk], jp.get(kk)] for kk in want_all if jp.get(kk) != want_all[kk] and not (has_huge and kk in ("unique_blob_size", "max_expanded_blob_size") and js.get(kk) == jp.get(kk))}
             if bad:
                 out["viol"].append(("C05/caps/value-under-permuted-listing/" + sorted(bad)[0], {"case": name, "diff": bad}))
+        # the same repository with the children's output arriving in different groupings (lines delivered one by one,
+        # in pairs, in bursts with pauses): the totals must not depend on how many headers are waiting at a time
+        for k in range(nperm):
+            pdir = os.path.join(d, "grp%d" % k)
+            rules = [{"sig": sg, "ord": -1, "mode": "delay", "chunk": rng.choice([1, 40, 55, 60, 110, 120, 170, 4096]),
+                      "chunk_ms": rng.choice([1, 3, 8]), "pre_ms": rng.choice([0, 20]), "max_ms": 300}
+                     for sg in ("cat-file --batch-check", "rev-list") if rng.random() < 0.8]
+            plan = R.make_plan(pdir, rules)
+            rp = R.sizer(binary, gitdir, ["--json", "--no-progress"], shimdir=shimdir, plan=plan, tmpdir=d, timeout=300, rlimit_cpu=60,
+                         env={"GOMAXPROCS": rng.choice(["1", "2", "4", "16"])})
+            out["evals"] += 1
+            shutil.rmtree(pdir, ignore_errors=True)
+            jp, _ = P.parse_json(rp.out) if rp.rc == 0 else (None, None)
+            if jp is None:
+                out["viol"].append(("C05/run-failed/regrouped-output", {"case": name, "rc": rp.rc, "stderr": rp.err[-300:]}))
+                continue
+            bad = {kk: [want_all[kk], jp.get(kk)] for kk in want_all if jp.get(kk) != want_all[kk]}
+            if bad:
+                out["viol"].append(("C05/caps/value-under-regrouped-child-output/" + sorted(bad)[0], {"case": name, "diff": bad, "rules": rules}))
         subtrees = [o for o in ex.reach.values() if o.kind == "tree" and any(e.kind == G.TREE for e in o.entries)]
         if subtrees and not has_huge:
             m2refs = dict(m.refs)
